@@ -40,6 +40,7 @@ def main(argv=None):
     ap.add_argument("--shards", type=int, default=0)
     ap.add_argument("--scale", type=float, default=float(os.environ.get("VERIF_SCALE", "1")))
     ap.add_argument("--no-evidence", action="store_true")
+    ap.add_argument("--no-shrink", action="store_true", help="report the first failing case of each signature as found (tools only)")
     a = ap.parse_args(argv)
 
     prop = a.check.upper()
@@ -73,7 +74,7 @@ def main(argv=None):
             out = parent / f"result.{sh}.json"
             cmd = [PY, "-m", "vp.worker", "--check", prop, "--tier", a.tier, "--seed", str(seed),
                    "--shard", str(sh), "--nshards", str(nshards), "--out", str(out),
-                   "--known", str(known_file), "--scale", str(a.scale)]
+                   "--known", str(known_file), "--scale", str(a.scale)] + (["--no-shrink"] if a.no_shrink else [])
             if a.replay:
                 cmd += ["--replay", str(Path(a.replay).resolve())]
             log = open(parent / f"log.{sh}.txt", "w")
